@@ -1,17 +1,20 @@
 #!/bin/sh
-# Applies a patch to /repo, runs the given checks (quick tier unless TIER is set),
-# and always restores /repo.  Usage: tools/try_patch.sh <patch.diff> C04 [C05 …]
-# Prints one line per property: "<id> exit=<code>" (1 = the check raised a VIOLATION).
+# Runs the given checks against a scratch worktree of /repo with a patch applied;
+# /repo itself, /verif/evidence and /verif/replays are not touched (the run writes
+# under /verif/.build/alt-*/).  Usage: tools/try_patch.sh <patch.diff> C04 [C05 …]
+# Env: TIER (quick), VERIF_SEED (1), EXTRA (extra ./check flags).
+# Prints "<id> exit=<code>" per property: 1 = the check raised a VIOLATION.
 set -u
 patch=$(readlink -f "$1"); shift
-cd /repo || exit 2
-if [ -n "$(git status --porcelain --untracked-files=no)" ]; then echo "/repo is not clean"; exit 2; fi
-git apply "$patch" || { echo "patch does not apply"; exit 2; }
-trap 'git -C /repo checkout -- . ; git -C /repo clean -fdq -- . >/dev/null 2>&1' EXIT
+wt=/tmp/wt/try-$$
+mkdir -p /tmp/wt
+git -C /repo worktree add -q --detach "$wt" HEAD || exit 2
+trap 'git -C /repo worktree remove --force "$wt" >/dev/null 2>&1; rm -rf "/verif/.build/alt-tmp_wt_try-$$"' EXIT
+git -C "$wt" apply "$patch" || { echo "patch does not apply"; exit 2; }
 cd /verif
 for p in "$@"; do
-  out=$(VERIF_SEED=${VERIF_SEED:-1} ./check "$p" --tier "${TIER:-quick}" ${EXTRA:-} 2>&1)
+  out=$(VERIF_REPO="$wt" VERIF_SEED=${VERIF_SEED:-1} ./check "$p" --tier "${TIER:-quick}" ${EXTRA:-} 2>&1)
   code=$?
   echo "$p exit=$code"
-  echo "$out" | grep -E "^VIOLATION|violation |TROUBLE" | cut -c1-300 | head -8
+  echo "$out" | grep -E "^VIOLATION|violation |TROUBLE|cases=" | cut -c1-300 | head -8
 done
